@@ -250,9 +250,41 @@ pub fn read_header(bytes: &[u8], o: &ParseOptions) -> (Result<Header, HeaderErro
 /// The round-trip part shared by P and K cases: `len=.. W=.. rr=...` and the C09 oracle.
 /// rr: re-read of the written bytes equals the header in strict / permissive(None) /
 /// permissive(true file length) mode (`x` when the header has no layout, i.e. no true length).
+/// A writer that accepts at most `max` bytes per `write` call (pipes, sockets, fixed-size sinks behave like this):
+/// `Header::write` must deliver the whole image through it as well.
+pub struct ShortWriter {
+    pub data: Vec<u8>,
+    pub max: usize,
+}
+impl std::io::Write for ShortWriter {
+    fn write(&mut self, buf: &[u8]) -> std::io::Result<usize> {
+        let n = buf.len().min(self.max);
+        self.data.extend_from_slice(&buf[..n]);
+        Ok(n)
+    }
+    fn flush(&mut self) -> std::io::Result<()> {
+        Ok(())
+    }
+}
+
 pub fn roundtrip(h: &Header, oracle: &mut Vec<String>) -> String {
     let mut bytes = Vec::new();
     h.write(&mut bytes).unwrap();
+    // the same image through a writer with short writes (chunk size derived from the header so that it varies)
+    let max = 1 + (h.width() as usize * 7 + h.height() as usize) % 131;
+    let mut sw = ShortWriter { data: vec![], max };
+    match h.write(&mut sw) {
+        Ok(()) => {
+            if sw.data != bytes {
+                oracle.push(format!(
+                    "Header::write returned Ok through a writer accepting {max} bytes per call but delivered {} of {} bytes",
+                    sw.data.len(),
+                    bytes.len()
+                ));
+            }
+        }
+        Err(e) => oracle.push(format!("Header::write failed on a writer with short writes: {e}")),
+    }
     let want = 4 + h.byte_len();
     if bytes.len() != want || (want != 128 && want != 148) || bytes[..4] != Header::MAGIC {
         oracle.push(format!("written image has {} bytes / wrong magic (expected magic + {})", bytes.len(), want - 4));
